@@ -26,7 +26,9 @@ def run(ctx):
     cl = fx.crate("clap_lex")
     # ---- R13.1
     sa = [c for b in cl.bodies for c in b.calls_to(r"^clap_lex::ext::split_at$")]
-    res.floor("R13.1", "ext::split_at call sites", len(sa), 2)
+    # (a caller may have the helper written out in place: raw `as_encoded_bytes().split_at(idx)` sites count, they are checked with the unchecked-arg rule)
+    raw_sa = [c for b in cl.bodies if b.q != "clap_lex::ext::split_at" for c in b.calls_to(r"^\[T\]::split_at$") if re.match(r"^as_encoded_bytes\(", expr(b, c.args[0]))]
+    res.floor("R13.1", "ext::split_at call sites", len(sa) + len(raw_sa), 2)
     for c in sa:
         b = c.body
         s, idx = expr(b, c.args[0]), expr(b, c.args[1])
@@ -85,6 +87,14 @@ def run(ctx):
             P = b.parent
             mk = [cc for cc in P.calls() if b.q in cc.closures]
             ok = bool(mk) and all(re.fullmatch(r"strip_prefix\(as_encoded_bytes\(self\),as_bytes\(prefix\)\)", expr(P, cc.args[0])) for cc in mk)
+        if not ok:
+            # ext::split_at written out in place: the same boundary provenance as the split_at-index rule above
+            mm = re.fullmatch(r"split_at\(as_encoded_bytes\((.*)\),(.*)\)\.[01]", e)
+            if mm:
+                x_, idx_ = mm.group(1), mm.group(2)
+                m1 = re.fullmatch(r"next\((.*)\.utf8_prefix\)#Some\.0\.0", idx_)
+                m2 = re.fullmatch(r"valid_up_to\(try_str\((.*)\)#Err\.0\)", idx_)
+                ok = bool((m1 and x_ == m1.group(1) + ".inner") or (m2 and x_ == m2.group(1)))
         res.check(ok, "R13.1", "unchecked-arg|%s" % b.q, c.where(), "argument is a boundary-cut sub-slice of as_encoded_bytes(): %s" % e[:90],
                   "from_encoded_bytes_unchecked on bytes not provably cut at a UTF-8 boundary of the encoded string: %s" % e[:140])
     # needle/prefix parameters are &str (so any match is along a UTF-8 boundary)
@@ -222,7 +232,9 @@ def run(ctx):
                       "None only when prefix and suffix are exhausted", "next_flag returns None under %s" % gl)
     ie = fx.body("clap_lex::ShortFlags::is_empty")
     emp = ie.calls_to(r"^str::is_empty$")
-    res.check(len(emp) == 1 and expr(ie, emp[0].args[0]) == "as_str(self.utf8_prefix)" and has_bool(ie, emp[0].bb, "T", r"^is_none\(self\.invalid_suffix\)$"), "R13.8", "is_empty", ie.where(),
+    none_edge = bool(emp) and (has_bool(ie, emp[0].bb, "T", r"^is_none\(self\.invalid_suffix\)$") or any(g in ("V0:self.invalid_suffix", "!V1:self.invalid_suffix", "F:is_some(self.invalid_suffix)") for g in guard_strs(ie, emp[0].bb)))
+    other_false = all(d[3]["k"] == "use" and op_int(d[3]["op"]) == 0 for d in ie.def_sites(0) if isinstance(d[3], dict))      # `Some(_) => false`
+    res.check(len(emp) == 1 and expr(ie, emp[0].args[0]) == "as_str(self.utf8_prefix)" and none_edge and other_false, "R13.8", "is_empty", ie.where(),
               "invalid_suffix.is_none() && utf8_prefix.as_str().is_empty()", "ShortFlags::is_empty no longer means `no suffix and prefix exhausted`")
     itn = fx.body("<clap_lex::ShortFlags as std::iter::traits::iterator::Iterator>::next")
     res.check(len(itn.calls_to(r"ShortFlags::next_flag$")) == 1 and len(itn.calls()) == 1, "R13.8", "iterator-delegates", itn.where(), "Iterator::next = next_flag", "Iterator::next for ShortFlags no longer delegates to next_flag")
